@@ -134,49 +134,333 @@ theorem ownerPairs_sub_keepSet {cfg : Cfg} {g : G} {d : String} {p : String × S
   have h2 : p.2 ∈ pairIds (ownerPairs cfg g d) := mem_pairIds.2 ⟨p, h, Or.inr rfl⟩
   simp [h1, h2]
 
-theorem mem_linkPairs {cfg : Cfg} {g : G} {d : String} {p : String × String} :
-    p ∈ linkPairs cfg g d ↔ ∃ c ∈ keepCps cfg g d, ∃ t ∈ cfg.linkTraces, p ∈ firstSecond cfg.dropsK g c t := by
-  unfold linkPairs; simp
+/-! ## the link loop -/
+
+theorem mem_linkStep {cfg : Cfg} {g : G} {front : List String} {p : String × String} :
+    p ∈ linkStep cfg g front ↔ ∃ c ∈ front, ∃ t ∈ cfg.linkTraces, p ∈ firstSecond cfg.dropsK g c t := by
+  unfold linkStep; simp
+
+theorem mem_ownerStep {cfg : Cfg} {g : G} {cps : List String} {p : String × String} :
+    p ∈ ownerStep cfg g cps ↔ ∃ c ∈ cps, ∃ t ∈ cfg.ownerTraces, p ∈ firstSecond cfg.dropsK g c t := by
+  unfold ownerStep; simp
+
+theorem mem_newCps {cfg : Cfg} {g : G} {seen front : List String} {c : String} :
+    c ∈ newCps cfg g seen front ↔ (∃ p ∈ linkStep cfg g front, p.2 = c) ∧ c ∉ seen := by
+  unfold newCps
+  simp only [List.mem_filter, List.mem_eraseDups, List.mem_map, Bool.not_eq_true', List.contains_eq_mem,
+    decide_eq_false_iff_not]
+
+/-- the second element of a pair found by a two-hop query is a node of the graph -/
+theorem firstSecond_snd_mem_ids {dropsK : Bool} {g : G} {x : String} {t : Trace} {p : String × String}
+    (h : p ∈ firstSecond dropsK g x t) : p.2 ∈ g.ids := by
+  rcases p with ⟨n, k⟩
+  exact hasCls_mem_ids (secondHop_sound (mem_firstSecond.1 h).2).2.1
+
+theorem firstSecond_fst_mem_ids {dropsK : Bool} {g : G} {x : String} {t : Trace} {p : String × String}
+    (h : p ∈ firstSecond dropsK g x t) : p.1 ∈ g.ids := by
+  rcases p with ⟨n, k⟩
+  exact hasCls_mem_ids (mem_firstHop.1 (mem_firstSecond.1 h).1).2
+
+theorem linkClose_zero (cfg : Cfg) (g : G) (seen front : List String) (acc : List (String × String)) :
+    linkClose cfg g 0 seen front acc = (acc, seen) := rfl
+
+theorem linkClose_nil (cfg : Cfg) (g : G) (fuel : Nat) (seen : List String) (acc : List (String × String)) :
+    linkClose cfg g fuel seen [] acc = (acc, seen) := by
+  cases fuel <;> simp [linkClose]
+
+theorem linkClose_succ (cfg : Cfg) (g : G) (fuel : Nat) (seen front : List String) (acc : List (String × String))
+    (h : front ≠ []) :
+    linkClose cfg g (fuel + 1) seen front acc =
+      linkClose cfg g fuel (seen ++ newCps cfg g seen front) (newCps cfg g seen front) (acc ++ linkStep cfg g front) := by
+  have : front.isEmpty = false := by cases front <;> simp_all
+  simp [linkClose, this]
+
+/-- the loop only adds: what was seen stays seen, what was found stays found -/
+theorem linkClose_mono (cfg : Cfg) (g : G) (fuel : Nat) (seen front : List String) (acc : List (String × String)) :
+    (∀ c ∈ seen, c ∈ (linkClose cfg g fuel seen front acc).2) ∧ (∀ p ∈ acc, p ∈ (linkClose cfg g fuel seen front acc).1) := by
+  induction fuel generalizing seen front acc with
+  | zero => exact ⟨fun c h => h, fun p h => h⟩
+  | succ fuel ih =>
+    by_cases hf : front = []
+    · subst hf; rw [linkClose_nil]; exact ⟨fun c h => h, fun p h => h⟩
+    · rw [linkClose_succ _ _ _ _ _ _ hf]
+      have := ih (seen ++ newCps cfg g seen front) (newCps cfg g seen front) (acc ++ linkStep cfg g front)
+      exact ⟨fun c h => this.1 c (List.mem_append.2 (Or.inl h)), fun p h => this.2 p (List.mem_append.2 (Or.inl h))⟩
+
+/-- every pair found comes from a query at a connection point that ends up kept -/
+theorem linkClose_sound (cfg : Cfg) (g : G) (fuel : Nat) (seen front : List String) (acc : List (String × String))
+    (hfs : ∀ c ∈ front, c ∈ seen) :
+    ∀ p ∈ (linkClose cfg g fuel seen front acc).1,
+      p ∈ acc ∨ ∃ c ∈ (linkClose cfg g fuel seen front acc).2, ∃ t ∈ cfg.linkTraces, p ∈ firstSecond cfg.dropsK g c t := by
+  induction fuel generalizing seen front acc with
+  | zero => intro p hp; exact Or.inl hp
+  | succ fuel ih =>
+    by_cases hf : front = []
+    · subst hf; rw [linkClose_nil]; intro p hp; exact Or.inl hp
+    · rw [linkClose_succ _ _ _ _ _ _ hf]
+      intro p hp
+      rcases ih (seen ++ newCps cfg g seen front) (newCps cfg g seen front) (acc ++ linkStep cfg g front)
+        (fun c h => List.mem_append.2 (Or.inr h)) p hp with h | h
+      · rcases List.mem_append.1 h with h | h
+        · exact Or.inl h
+        · rcases mem_linkStep.1 h with ⟨c, hc, t, ht, hfs'⟩
+          exact Or.inr ⟨c, (linkClose_mono cfg g fuel _ _ _).1 c (List.mem_append.2 (Or.inl (hfs c hc))), t, ht, hfs'⟩
+      · exact Or.inr h
+
+/-- the far end of every pair found ends up among the kept connection points -/
+theorem linkClose_snd (cfg : Cfg) (g : G) (fuel : Nat) (seen front : List String) (acc : List (String × String))
+    (hacc : ∀ p ∈ acc, p.2 ∈ seen) :
+    ∀ p ∈ (linkClose cfg g fuel seen front acc).1, p.2 ∈ (linkClose cfg g fuel seen front acc).2 := by
+  induction fuel generalizing seen front acc with
+  | zero => exact hacc
+  | succ fuel ih =>
+    by_cases hf : front = []
+    · subst hf; rw [linkClose_nil]; exact hacc
+    · rw [linkClose_succ _ _ _ _ _ _ hf]
+      apply ih
+      intro p hp
+      rcases List.mem_append.1 hp with h | h
+      · exact List.mem_append.2 (Or.inl (hacc p h))
+      · by_cases hs : p.2 ∈ seen
+        · exact List.mem_append.2 (Or.inl hs)
+        · exact List.mem_append.2 (Or.inr (mem_newCps.2 ⟨⟨p, h, rfl⟩, hs⟩))
+
+/-- with at least one pass, the connection points the loop starts from are traced -/
+theorem linkClose_first (cfg : Cfg) (g : G) (fuel : Nat) (seen front : List String) (acc : List (String × String)) :
+    ∀ p ∈ linkStep cfg g front, p ∈ (linkClose cfg g (fuel + 1) seen front acc).1 := by
+  intro p hp
+  by_cases hf : front = []
+  · subst hf; simp [linkStep] at hp
+  · rw [linkClose_succ _ _ _ _ _ _ hf]
+    exact (linkClose_mono cfg g fuel _ _ _).2 p (List.mem_append.2 (Or.inr hp))
+
+/-- `b` is the far end of a link-trace pair found from `a` -/
+def LinkNext (cfg : Cfg) (g : G) (a b : String) : Prop :=
+  ∃ t ∈ cfg.linkTraces, ∃ n, (n, b) ∈ firstSecond cfg.dropsK g a t
+
+/-- `b` is reached from `a` by following link traces from connection point to connection point -/
+inductive LinkReach (cfg : Cfg) (g : G) : String → String → Prop
+  | refl (a : String) : LinkReach cfg g a a
+  | step {a b c : String} : LinkReach cfg g a b → LinkNext cfg g b c → LinkReach cfg g a c
+
+theorem LinkReach.head {cfg : Cfg} {g : G} {a b c : String} (h1 : LinkNext cfg g a b) (h2 : LinkReach cfg g b c) :
+    LinkReach cfg g a c := by
+  induction h2 with
+  | refl => exact .step (.refl a) h1
+  | step _ hn ih => exact .step ih hn
+
+/-- every connection point kept by the loop is reached from one it started with -/
+theorem linkClose_reach (cfg : Cfg) (g : G) (fuel : Nat) (seen front : List String) (acc : List (String × String))
+    (hfs : ∀ c ∈ front, c ∈ seen) :
+    ∀ c ∈ (linkClose cfg g fuel seen front acc).2, ∃ c0 ∈ seen, LinkReach cfg g c0 c := by
+  induction fuel generalizing seen front acc with
+  | zero => intro c hc; exact ⟨c, hc, .refl c⟩
+  | succ fuel ih =>
+    by_cases hf : front = []
+    · subst hf; rw [linkClose_nil]; intro c hc; exact ⟨c, hc, .refl c⟩
+    · rw [linkClose_succ _ _ _ _ _ _ hf]
+      intro c hc
+      rcases ih (seen ++ newCps cfg g seen front) (newCps cfg g seen front) (acc ++ linkStep cfg g front)
+        (fun c h => List.mem_append.2 (Or.inr h)) c hc with ⟨c0, hc0, hr⟩
+      rcases List.mem_append.1 hc0 with h | h
+      · exact ⟨c0, h, hr⟩
+      · rcases (mem_newCps.1 h).1 with ⟨⟨n, k⟩, hp, hk⟩
+        simp only at hk; subst hk
+        rcases mem_linkStep.1 hp with ⟨c1, hc1, t, ht, hfs'⟩
+        exact ⟨c1, hfs c1 hc1, LinkReach.head ⟨t, ht, n, hfs'⟩ hr⟩
+
+/-- nodes of the graph not yet among the kept connection points: the measure that bounds the number of passes -/
+def unseen (g : G) (seen : List String) : Nat := (g.ids.filter (fun x => !seen.contains x)).length
+
+theorem filter_length_lt {α : Type} {l : List α} {p q : α → Bool} (hpq : ∀ x, q x = true → p x = true)
+    {a : α} (ha : a ∈ l) (hp : p a = true) (hq : q a = false) : (l.filter q).length < (l.filter p).length := by
+  induction l with
+  | nil => cases ha
+  | cons b l ih =>
+    have hle : ∀ l : List α, (l.filter q).length ≤ (l.filter p).length := by
+      intro l
+      induction l with
+      | nil => simp
+      | cons c l ih' =>
+        by_cases hc : q c = true
+        · simp [List.filter, hc, hpq c hc, ih']
+        · have hc' : q c = false := by simpa using hc
+          by_cases hpc : p c = true
+          · simp [List.filter, hc', hpc]; omega
+          · have hpc' : p c = false := by simpa using hpc
+            simp [List.filter, hc', hpc', ih']
+    rcases List.mem_cons.1 ha with rfl | ha'
+    · have := hle l
+      simp [List.filter, hp, hq]; omega
+    · have := ih ha'
+      by_cases hc : q b = true
+      · simp [List.filter, hc, hpq b hc]; omega
+      · have hc' : q b = false := by simpa using hc
+        by_cases hpc : p b = true
+        · simp [List.filter, hc', hpc]; omega
+        · have hpc' : p b = false := by simpa using hpc
+          simp [List.filter, hc', hpc']; omega
+
+theorem unseen_lt {cfg : Cfg} {g : G} {seen front : List String} (h : newCps cfg g seen front ≠ []) :
+    unseen g (seen ++ newCps cfg g seen front) < unseen g seen := by
+  cases hn : newCps cfg g seen front with
+  | nil => exact absurd hn h
+  | cons a rest =>
+    have ha : a ∈ newCps cfg g seen front := by rw [hn]; exact List.mem_cons_self ..
+    rcases mem_newCps.1 ha with ⟨⟨p, hp, hpa⟩, hns⟩
+    rcases mem_linkStep.1 hp with ⟨c, _, t, _, hfs⟩
+    have hid : a ∈ g.ids := by rw [← hpa]; exact firstSecond_snd_mem_ids hfs
+    rw [← hn]
+    unfold unseen
+    apply filter_length_lt (a := a) _ hid
+    · simpa using hns
+    · simp [ha]
+    · intro x hx
+      simp only [Bool.not_eq_true', List.contains_eq_mem, decide_eq_false_iff_not, List.mem_append, not_or] at hx ⊢
+      exact hx.1
+
+theorem unseen_le (g : G) (seen : List String) : unseen g seen ≤ g.nodes.length := by
+  unfold unseen G.ids
+  exact Nat.le_trans (List.length_filter_le _ _) (by simp)
+
+theorem linkStep_single_sub {cfg : Cfg} {g : G} {front : List String} {c : String} (hc : c ∈ front) :
+    ∀ p ∈ linkStep cfg g [c], p ∈ linkStep cfg g front := by
+  intro p hp
+  rcases mem_linkStep.1 hp with ⟨c', hc', t, ht, h⟩
+  simp only [List.mem_cons, List.not_mem_nil, or_false] at hc'
+  subst hc'
+  exact mem_linkStep.2 ⟨c', hc, t, ht, h⟩
+
+/-- **termination and closedness of the link loop**: when every connection point seen so far is either still to be
+traced or has had all its pairs found, and the fuel exceeds the number of graph nodes not yet seen, the loop reaches
+its regular exit and the result is closed — every kept connection point has had all its link-trace pairs found.
+(Each pass with a non-empty result moves at least one graph node from "unseen" to "seen".) -/
+theorem linkClose_closed (cfg : Cfg) (g : G) (fuel : Nat) (seen front : List String) (acc : List (String × String))
+    (hfs : ∀ c ∈ front, c ∈ seen)
+    (hinv : ∀ c ∈ seen, c ∈ front ∨ ∀ p ∈ linkStep cfg g [c], p ∈ acc)
+    (hfuel : unseen g seen < fuel) :
+    ∀ c ∈ (linkClose cfg g fuel seen front acc).2, ∀ p ∈ linkStep cfg g [c], p ∈ (linkClose cfg g fuel seen front acc).1 := by
+  induction fuel generalizing seen front acc with
+  | zero => exact absurd hfuel (Nat.not_lt_zero _)
+  | succ fuel ih =>
+    by_cases hf : front = []
+    · subst hf; rw [linkClose_nil]
+      intro c hc
+      rcases hinv c hc with h | h
+      · cases h
+      · exact h
+    · rw [linkClose_succ _ _ _ _ _ _ hf]
+      have hinv' : ∀ c ∈ seen ++ newCps cfg g seen front, c ∈ newCps cfg g seen front ∨
+          ∀ p ∈ linkStep cfg g [c], p ∈ acc ++ linkStep cfg g front := by
+        intro c hc
+        rcases List.mem_append.1 hc with h | h
+        · rcases hinv c h with h' | h'
+          · exact Or.inr fun p hp => List.mem_append.2 (Or.inr (linkStep_single_sub h' p hp))
+          · exact Or.inr fun p hp => List.mem_append.2 (Or.inl (h' p hp))
+        · exact Or.inl h
+      by_cases hn : newCps cfg g seen front = []
+      · rw [hn, linkClose_nil]
+        intro c hc
+        rw [hn] at hinv'
+        rcases hinv' c hc with h | h
+        · cases h
+        · exact h
+      · apply ih _ _ _ (fun c h => List.mem_append.2 (Or.inr h)) hinv'
+        have := unseen_lt (g := g) hn
+        omega
+
+/-! ## the keep set -/
 
 theorem mem_ownerPairs {cfg : Cfg} {g : G} {d : String} {p : String × String} :
     p ∈ ownerPairs cfg g d ↔ ∃ c ∈ keepCps2 cfg g d, ∃ t ∈ cfg.ownerTraces, p ∈ firstSecond cfg.dropsK g c t := by
-  unfold ownerPairs; simp
+  unfold ownerPairs; exact mem_ownerStep
 
 theorem mem_keepCps {cfg : Cfg} {g : G} {d c : String} :
     c ∈ keepCps cfg g d ↔ c ∈ keep0 cfg g d ∧ g.hasCls c cfg.cpClass = true := by
   unfold keepCps; simp
 
+theorem keepCps_sub_keepCps2 {cfg : Cfg} {g : G} {d c : String} (h : c ∈ keepCps cfg g d) : c ∈ keepCps2 cfg g d :=
+  (linkClose_mono cfg g _ _ _ _).1 c h
+
+/-- every link-trace pair in the keep set was found from a kept connection point -/
+theorem linkPairs_sound {cfg : Cfg} {g : G} {d : String} {p : String × String} (h : p ∈ linkPairs cfg g d) :
+    ∃ c ∈ keepCps2 cfg g d, ∃ t ∈ cfg.linkTraces, p ∈ firstSecond cfg.dropsK g c t := by
+  rcases linkClose_sound cfg g _ _ _ _ (fun c h => h) p h with h | h
+  · cases h
+  · exact h
+
+theorem linkPairs_snd {cfg : Cfg} {g : G} {d : String} {p : String × String} (h : p ∈ linkPairs cfg g d) :
+    p.2 ∈ keepCps2 cfg g d :=
+  linkClose_snd cfg g _ _ _ _ (fun p h => by cases h) p h
+
+/-- with at least one pass: the pairs of the definite connection points are found -/
+theorem linkPairs_of_keepCps {cfg : Cfg} {g : G} {d c : String} {t : Trace} {p : String × String}
+    (hr : cfg.linkRounds ≠ some 0) (hc : c ∈ keepCps cfg g d) (ht : t ∈ cfg.linkTraces)
+    (hp : p ∈ firstSecond cfg.dropsK g c t) : p ∈ linkPairs cfg g d := by
+  unfold linkPairs linkRun
+  have : ∃ k, linkFuel cfg g = k + 1 := by
+    unfold linkFuel
+    cases h : cfg.linkRounds with
+    | none => exact ⟨_, rfl⟩
+    | some k =>
+      cases k with
+      | zero => exact absurd h hr
+      | succ k => exact ⟨k, rfl⟩
+  rcases this with ⟨k, hk⟩
+  rw [hk]
+  exact linkClose_first cfg g k _ _ _ p (mem_linkStep.2 ⟨c, hc, t, ht, hp⟩)
+
+/-- repeated until nothing new turns up: the pairs of EVERY kept connection point are found -/
+theorem linkPairs_of_keepCps2 {cfg : Cfg} {g : G} {d c : String} {t : Trace} {p : String × String}
+    (hr : cfg.linkRounds = none) (hc : c ∈ keepCps2 cfg g d) (ht : t ∈ cfg.linkTraces)
+    (hp : p ∈ firstSecond cfg.dropsK g c t) : p ∈ linkPairs cfg g d := by
+  have hfuel : unseen g (keepCps cfg g d) < linkFuel cfg g := by
+    unfold linkFuel; rw [hr]; exact Nat.lt_succ_of_le (unseen_le g _)
+  exact linkClose_closed cfg g _ _ _ _ (fun c h => h) (fun c h => Or.inl h) hfuel c hc p
+    (mem_linkStep.2 ⟨c, List.mem_singleton.2 rfl, t, ht, hp⟩)
+
+/-- the kept connection points are reached from the definite ones by following link traces -/
+theorem keepCps2_reach {cfg : Cfg} {g : G} {d c : String} (h : c ∈ keepCps2 cfg g d) :
+    ∃ c0 ∈ keepCps cfg g d, LinkReach cfg g c0 c :=
+  linkClose_reach cfg g _ _ _ _ (fun _ h => h) c h
+
+/-- ... and (repeated until nothing new turns up) everything reached that way is kept -/
+theorem reach_keepCps2 {cfg : Cfg} {g : G} {d c0 c : String} (hr : cfg.linkRounds = none)
+    (h0 : c0 ∈ keepCps2 cfg g d) (h : LinkReach cfg g c0 c) : c ∈ keepCps2 cfg g d := by
+  induction h with
+  | refl => exact h0
+  | step _ hn ih =>
+    rcases hn with ⟨t, ht, n, hp⟩
+    exact linkPairs_snd (linkPairs_of_keepCps2 hr ih ht hp)
+
 /-- a definite connection point keeps every link (first hop of a link trace) and the far ends -/
-theorem closure_link {cfg : Cfg} {g : G} {d c L p : String} {t : Trace}
+theorem closure_link {cfg : Cfg} {g : G} {d c L p : String} {t : Trace} (hr : cfg.linkRounds ≠ some 0)
     (hc : c ∈ keep0 cfg g d) (hcp : g.hasCls c cfg.cpClass = true) (ht : t ∈ cfg.linkTraces)
     (h1 : g.adj c L t.rel1) (hL : g.hasCls L t.l1 = true) (h2 : g.adj L p t.rel2) (hp : g.hasCls p t.l2 = true)
     (hpc : p ≠ c) (hpL : p ≠ L) (hsimple : ∀ r, g.adj L p r → r = t.rel2) :
     L ∈ keepSet cfg g d ∧ p ∈ keepSet cfg g d ∧ p ∈ keepCps2 cfg g d := by
   have hm : (L, p) ∈ linkPairs cfg g d :=
-    mem_linkPairs.2 ⟨c, mem_keepCps.2 ⟨hc, hcp⟩, t, ht, mem_firstSecond_of h1 hL h2 hp hpc hpL hsimple⟩
+    linkPairs_of_keepCps hr (mem_keepCps.2 ⟨hc, hcp⟩) ht (mem_firstSecond_of h1 hL h2 hp hpc hpL hsimple)
   have := linkPairs_sub_keepSet hm
-  refine ⟨this.1, this.2, ?_⟩
-  unfold keepCps2
-  exact List.mem_append.2 (Or.inr (List.mem_map.2 ⟨(L, p), hm, rfl⟩))
+  exact ⟨this.1, this.2, linkPairs_snd hm⟩
 
-/-- every connection point in the keep set is one whose service and owner are traced -/
+/-- every connection point in the keep set is one whose links (to a fixed point) and service are traced -/
 theorem kept_cp_mem_keepCps2 {cfg : Cfg} {g : G} {d c : String}
     (hlt : ∀ t ∈ cfg.linkTraces, t.l1 ≠ cfg.cpClass)
     (hot : ∀ t ∈ cfg.ownerTraces, t.l1 ≠ cfg.cpClass ∧ t.l2 ≠ cfg.cpClass)
     (hc : c ∈ keepSet cfg g d) (hcp : g.hasCls c cfg.cpClass = true) : c ∈ keepCps2 cfg g d := by
   unfold keepSet at hc
-  unfold keepCps2
   rcases List.mem_append.1 hc with hc | hc
   · rcases List.mem_append.1 hc with hc | hc
-    · exact List.mem_append.2 (Or.inl (mem_keepCps.2 ⟨hc, hcp⟩))
+    · exact keepCps_sub_keepCps2 (mem_keepCps.2 ⟨hc, hcp⟩)
     · rcases mem_pairIds.1 hc with ⟨⟨n, k⟩, hp, h | h⟩
       · exfalso
         simp only at h; subst h
-        rcases mem_linkPairs.1 hp with ⟨c0, _, t, ht, hfs⟩
+        rcases linkPairs_sound hp with ⟨c0, _, t, ht, hfs⟩
         have := (mem_firstHop.1 (mem_firstSecond.1 hfs).1).2
         exact hlt t ht (hasCls_unique this hcp)
       · simp only at h; subst h
-        exact List.mem_append.2 (Or.inr (List.mem_map.2 ⟨(n, c), hp, rfl⟩))
+        exact linkPairs_snd hp
   · exfalso
     rcases mem_pairIds.1 hc with ⟨⟨n, k⟩, hp, h | h⟩
     · simp only at h; subst h
@@ -197,39 +481,17 @@ theorem closure_owner {cfg : Cfg} {g : G} {d c S o : String} {t : Trace}
   ownerPairs_sub_keepSet (p := (S, o))
     (mem_ownerPairs.2 ⟨c, hc, t, ht, mem_firstSecond_of h1 hS h2 ho hoc hoS hsimple⟩)
 
-/-- the guarded closure for any kept connection point (also one kept only as a far end): if it has a single
-neighbour of the link class, that link and all the link's other ends are kept -/
-theorem closure_peer_single_link {cfg : Cfg} {g : G} {d c L p : String} {t : Trace}
-    (hone_trace : cfg.linkTraces = [t])
-    (hlt : t.l1 ≠ cfg.cpClass)
+/-- **the full closure over links**: with the link traces repeated until nothing new turns up, ANY kept connection
+point — definite, or pulled in as the far end of a link at any distance — keeps every link and that link's far ends -/
+theorem closure_link_any {cfg : Cfg} {g : G} {d c L p : String} {t : Trace} (hr : cfg.linkRounds = none)
+    (hlt : ∀ t ∈ cfg.linkTraces, t.l1 ≠ cfg.cpClass)
     (hot : ∀ t ∈ cfg.ownerTraces, t.l1 ≠ cfg.cpClass ∧ t.l2 ≠ cfg.cpClass)
-    (hone : ∀ L' r, g.adj c L' r → g.hasCls L' t.l1 = true → L' = L)
-    (hc : c ∈ keepSet cfg g d) (hcp : g.hasCls c cfg.cpClass = true)
-    (h1 : g.adj c L t.rel1) (hL : g.hasCls L t.l1 = true)
-    (h2 : g.adj L p t.rel2) (hp : g.hasCls p t.l2 = true)
+    (hc : c ∈ keepSet cfg g d) (hcp : g.hasCls c cfg.cpClass = true) (ht : t ∈ cfg.linkTraces)
+    (h1 : g.adj c L t.rel1) (hL : g.hasCls L t.l1 = true) (h2 : g.adj L p t.rel2) (hp : g.hasCls p t.l2 = true)
     (hpc : p ≠ c) (hpL : p ≠ L) (hsimple : ∀ r, g.adj L p r → r = t.rel2) :
     L ∈ keepSet cfg g d ∧ p ∈ keepSet cfg g d := by
-  have ht : t ∈ cfg.linkTraces := by rw [hone_trace]; simp
-  have hlt' : ∀ t' ∈ cfg.linkTraces, t'.l1 ≠ cfg.cpClass := by
-    intro t' ht'; rw [hone_trace] at ht'; simp at ht'; subst ht'; exact hlt
-  have hk := kept_cp_mem_keepCps2 hlt' hot hc hcp
-  unfold keepCps2 at hk
-  rcases List.mem_append.1 hk with hk | hk
-  · have := closure_link (mem_keepCps.1 hk).1 hcp ht h1 hL h2 hp hpc hpL hsimple
-    exact ⟨this.1, this.2.1⟩
-  · rcases List.mem_map.1 hk with ⟨⟨L0, c'⟩, hq, hc'⟩
-    simp only at hc'; subst hc'
-    rcases mem_linkPairs.1 hq with ⟨c0, hc0, t', ht', hfs⟩
-    rw [hone_trace] at ht'; simp at ht'; subst ht'
-    have hfh := mem_firstHop.1 (mem_firstSecond.1 hfs).1
-    rcases (secondHop_sound (mem_firstSecond.1 hfs).2).1 with ⟨r, hr⟩
-    have hLL : L0 = L := hone L0 r (G.adj_symm hr) hfh.2
-    subst hLL
-    refine ⟨(linkPairs_sub_keepSet hq).1, ?_⟩
-    by_cases hpc0 : p = c0
-    · subst hpc0; exact keep0_sub_keepSet (mem_keepCps.1 hc0).1
-    · have hm : (L0, p) ∈ linkPairs cfg g d :=
-        mem_linkPairs.2 ⟨c0, hc0, t', ht, mem_firstSecond_of hfh.1 hL h2 hp hpc0 hpL hsimple⟩
-      exact (linkPairs_sub_keepSet hm).2
+  have hk := kept_cp_mem_keepCps2 hlt hot hc hcp
+  exact linkPairs_sub_keepSet (p := (L, p))
+    (linkPairs_of_keepCps2 hr hk ht (mem_firstSecond_of h1 hL h2 hp hpc hpL hsimple))
 
 end FimVerif.Arm
